@@ -336,6 +336,20 @@ func ReaderReceiveLoop() Driver {
 					res.Calls++
 					continue
 				}
+				if h.Fin && h.OpCode != ws.OpContinuation && !rd.State.Fragmented() {
+					// a message in one frame: exactly the announced bytes are taken, as ReadMessage does
+					// (none at all for an empty one)
+					p := make([]byte, h.Length)
+					if h.Length > 0 {
+						if _, err := io.ReadFull(rd, p); err != nil {
+							res.Err = err
+							return
+						}
+					}
+					res.Events = append(res.Events, Event{Kind: "msg", Op: byte(h.OpCode), Payload: p})
+					res.Calls++
+					continue
+				}
 				var p []byte
 				buf := make([]byte, 512)
 				for jt := 0; ; jt++ {
